@@ -19,8 +19,11 @@ func restoreIndex(rootGoitPath, path string, index *store.Index, tree *object.Tr
 	// get entry
 	_, _, isEntryFound := index.GetEntry([]byte(path))
 
-	// get node
+	// get node: only a file of HEAD counts, a directory at this path is no blob to stage
 	node, isNodeFound := object.GetNode(tree.Children, path)
+	if isNodeFound && len(node.Children) > 0 {
+		isNodeFound = false
+	}
 
 	// if the path is registered in the Index
 	if isEntryFound {
@@ -95,12 +98,18 @@ func restoreWorkingDirectory(rootGoitPath, path string, index *store.Index) erro
 func stagedTargets(arg string, index *store.Index, tree *object.Tree) []string {
 	_, _, isEntryFound := index.GetEntry([]byte(arg))
 	node, isNodeFound := object.GetNode(tree.Children, arg)
-	if isEntryFound || (isNodeFound && len(node.Children) == 0) {
+	isHeadDir := isNodeFound && len(node.Children) > 0
+	if (isEntryFound && !isHeadDir) || (isNodeFound && !isHeadDir) {
 		return []string{arg}
 	}
 
 	seen := make(map[string]bool)
 	var paths []string
+	if isEntryFound {
+		// a file staged where HEAD has a directory: the file goes, the directory's files come back
+		seen[arg] = true
+		paths = append(paths, arg)
+	}
 	if isNodeFound {
 		// GetPaths starts at the node itself: put the directories above it back in front
 		parent := ""
